@@ -233,4 +233,96 @@ def summation(ip, cn, events, v):
                 loops.append(cn.show(it))
                 conds.extend(x for x in cs if x[0] not in ("inloop", "fact"))
             return init, [(c[2][0], loops, conds, None)]
+        # sum(L) with L filled by one append inside loops: the same sum, term by term
+        src = ip._iter_source(c) if c[0] in ("listobj", "call") else None
+        if src is not None and any(x[0] == "inloop" for x in src[1]):
+            loops, conds = [], []
+            for x in src[1]:
+                if x[0] == "inloop":
+                    info = ip.loops.get(x[1], {})
+                    loops.append(cn.show(info["iter"]) if info.get("iter") is not None
+                                 else "while")
+                elif x[0] != "fact" and loops:
+                    conds.append(x)
+            return init, [(src[0], loops, conds, None)]
     return None
+
+
+# ------------------------------------------------------------------ one-shot iterators
+ONE_SHOT_CALLS = {"map", "filter", "zip"}
+
+
+def exhausted_iterators(fn):
+    """[(name, assign node, second consumer node)]: a local bound to a one-shot iterator
+    (map / filter / zip object, generator expression) that is consumed at two places which can
+    both execute (not the two arms of one `if`), or inside a loop that does not contain the
+    binding.  The second consumer sees an exhausted stream - it ranges over nothing.  `next(x)`
+    / `iter(x)` uses are deliberate partial consumption and not counted."""
+    import ast
+    out = []
+    parents = {}
+    for n in ast.walk(fn):
+        for c in ast.iter_child_nodes(n):
+            parents[c] = n
+
+    def arms(node):
+        """[(if node, arm)] from the function body down to node"""
+        path, c = [], node
+        while c in parents:
+            p = parents[c]
+            if isinstance(p, ast.If):
+                if any(c is x for x in p.body):
+                    path.append((p, "body"))
+                elif any(c is x for x in p.orelse):
+                    path.append((p, "orelse"))
+            c = p
+        return path
+
+    def loops_of(node):
+        ls, c = [], node
+        while c in parents:
+            c = parents[c]
+            if isinstance(c, (ast.For, ast.While, ast.ListComp, ast.SetComp, ast.DictComp,
+                              ast.GeneratorExp)):
+                ls.append(c)
+        return ls
+
+    binds = {}
+    for n in ast.walk(fn):
+        if isinstance(n, ast.Assign) and len(n.targets) == 1 and isinstance(n.targets[0], ast.Name):
+            v = n.value
+            one = isinstance(v, ast.GeneratorExp) or (
+                isinstance(v, ast.Call) and isinstance(v.func, ast.Name)
+                and v.func.id in ONE_SHOT_CALLS)
+            binds.setdefault(n.targets[0].id, []).append((n, one))
+    for name, bs in binds.items():
+        if len(bs) != 1 or not bs[0][1]:
+            continue                      # re-bound names: not judged
+        bind = bs[0][0]
+        uses = []
+        for n in ast.walk(fn):
+            if isinstance(n, ast.Name) and n.id == name and isinstance(n.ctx, ast.Load):
+                p = parents.get(n)
+                if isinstance(p, ast.Call) and isinstance(p.func, ast.Name) \
+                        and p.func.id in ("next", "iter", "isinstance", "type", "id"):
+                    continue
+                uses.append(n)
+        uses.sort(key=lambda n: (n.lineno, n.col_offset))
+        bl = set(map(id, loops_of(bind)))
+        hit = None
+        for u in uses:
+            if any(id(l) not in bl for l in loops_of(u)):
+                hit = u                   # consumed again on every iteration
+                break
+        if hit is None:
+            for i, a in enumerate(uses):
+                for b in uses[i + 1:]:
+                    pa, pb = dict((id(k), v) for k, v in arms(a)), arms(b)
+                    if not any(id(k) in pa and pa[id(k)] != v for k, v in pb):
+                        hit = b
+                        break
+                if hit is not None:
+                    break
+        if hit is not None:
+            out.append((name, bind, hit))
+    return out
